@@ -95,7 +95,9 @@ CHECKS = {
         text="Generated-input search over Einsums (plain, partitioned, affine, cascades): the text emitted with a mapping section omitted "
              "must be identical to the text emitted with the canonical default written out, where the default (declared rank order; output "
              "ranks then remaining ranks by first appearance with partitioned ranks expanded in place; empty partitioning) is computed "
-             "by vf/defaults.py from the specification value. Two deviations found on the pinned commit were fixed (0d7d132).",
+             "by vf/defaults.py from the specification value. Two deviations found on the pinned commit were fixed (0d7d132). For flatten(), "
+             "where the property defines no canonical position, the default the compiler chose is read back from the IR and written out: "
+             "the text must not change (idempotence).",
         design="4/C19",
         note="Trusted base: vf/defaults.py (the default as worded in the property), Hypothesis."),
     "C18": dict(
